@@ -428,6 +428,10 @@ def split_rule(rep, prog, cfg):
     if b is None:
         rep.fail(rule + ".anchor", cfg + "/raw_command_list", "client/mod.rs", "public anchor Client::raw_command_list (accumulating frames) not found")
     else:
+        if not any("alloc::vec::Vec::push" in callee_names(t) or any(n.endswith("Iterator::try_fold") for n in callee_names(t)) for _, t in b.calls()):
+            # the splitting of the reply may sit in a private helper (`collect_frames(response)`): spliced in (A12)
+            from ..inline import inlined, module_private_helpers
+            b = inlined(prog, b, module_private_helpers(b, exclude={"mpd_client::client::Client::do_send"}))
         fl = Flow(b)
         pushes = [(bb, t) for bb, t in b.calls() if "alloc::vec::Vec::push" in callee_names(t)]
         acc = None
